@@ -2689,6 +2689,28 @@ pub fn run(ctx: &mut Ctx) {
                 }
             }
         }
+        // D34: ONE key repeated so often that its shard is too big for every seed (the transient
+        // MaxShardTooBig hides the duplicates forever): the build must still end with DuplicateKey
+        {
+            let plan: Vec<(usize, usize, Combo)> = if thorough {
+                vec![
+                    (100_001, 3000, default_func),
+                    (100_001, 60_000, combo_of("filter", "vec", "usize", "8", "box", 2, "shards")),
+                    (200_001, 5000, box_func),
+                ]
+            } else {
+                vec![(100_001, 3000, default_func)]
+            };
+            for (j, (n, copies, c)) in plan.into_iter().enumerate() {
+                let mut s = base_spec(&c, n);
+                s.dd = (1..copies).map(|i| (i, 0)).collect();
+                s.dups = true;
+                s.seed = 70 + j as u64;
+                s.off = j % 2 == 1;
+                ctx.stat("heavy_duplicate_key");
+                run_case(ctx, &s, &o);
+            }
+        }
         // a transient MaxShardTooBig on the first attempt (sharded regime, unbalanced first seed):
         // the loop must rewind both lenders before the next attempt
         {
